@@ -271,7 +271,7 @@ func runBolt(c *hx.Ctx) {
 		}
 		return "bolt", pb
 	}
-	n := c.N(3000, 40000)
+	n := c.N(3000, 26000)
 	for i := 0; i < n; i++ {
 		f := genBoltFrame(c, r)
 		// mostly the frame's own codec; sometimes the sibling codec (they hand over to each other on the first byte)
@@ -296,7 +296,7 @@ func runBolt(c *hx.Ctx) {
 		emit(c, name, proto, input, id, ops)
 	}
 	// malformed stream: truncations, unknown command types, foreign first byte, corrupt header blocks
-	m := c.N(600, 8000)
+	m := c.N(600, 5000)
 	for i := 0; i < m; i++ {
 		f := genBoltFrame(c, r)
 		if len(f.content) > 3000 {
